@@ -11,6 +11,7 @@ import glob
 import hashlib
 import json
 import os
+import re
 import shutil
 import subprocess
 import sys
@@ -341,11 +342,37 @@ def callee_name(t):
     return f.get("def")
 
 
+_IMPLN = re.compile(r"\{impl#\d+\}")
+
+
+class FnTable(dict):
+    """name -> Fn.  A name written with an impl ordinal (`m::{impl#0}::f`) is also found when another impl block was added
+    in front of it in the file and the ordinal moved, as long as `m::{impl}::f` is unique."""
+    def _index(self):
+        idx = self.__dict__.get("_norm")
+        if idx is None or self.__dict__.get("_n") != len(self):
+            idx = {}
+            for k in self.keys():
+                idx.setdefault(_IMPLN.sub("{impl}", k), []).append(k)
+            self.__dict__["_norm"] = idx
+            self.__dict__["_n"] = len(self)
+        return idx
+
+    def get(self, name, default=None):
+        if name in self:
+            return dict.get(self, name)
+        if isinstance(name, str) and "{impl" in name:
+            c = self._index().get(_IMPLN.sub("{impl}", name), [])
+            if len(c) == 1:
+                return dict.get(self, c[0])
+        return default
+
+
 class Program:
     def __init__(self, snap, sub=""):
         self.snap = snap
         d = os.path.join(snap, sub) if sub else snap
-        self.fns = {}
+        self.fns = FnTable()
         self.adts = {}
         self.ext_adts = {}
         self.impls = []
